@@ -143,7 +143,9 @@ class HasAccessibles(HasProperties):
                         except Exception as e:
                             self.log.debug("read_%s failed with %r", pname, e)
                             if isinstance(e, SECoPError):
-                                e.raising_methods.append(f'{self.name}.read_{pname}')
+                                method = f'{self.name}.read_{pname}'
+                                if method not in e.raising_methods:  # the same error object may be raised again
+                                    e.raising_methods.append(method)
                             self.announceUpdate(pname, err=e)
                             raise
                         self.announceUpdate(pname, value, validate=False)
@@ -197,7 +199,9 @@ class HasAccessibles(HasProperties):
                                     return getattr(self, pname)
                                 new_value = value if new_value is None else validate(new_value)
                         except SECoPError as e:
-                            e.raising_methods.append(f'{self.name}.write_{pname}')
+                            method = f'{self.name}.write_{pname}'
+                            if method not in e.raising_methods:  # the same error object may be raised again
+                                e.raising_methods.append(method)
                             raise
                         self.announceUpdate(pname, new_value, validate=False)
                         return new_value
@@ -693,7 +697,8 @@ class Module(HasAccessibles):
                 name = rfunc.__name__
                 self.pollInfo.pending_errors.add(name)  # trigger o.k. message after error is resolved
                 if isinstance(e, SECoPError):
-                    e.raising_methods.append(name)
+                    if name not in e.raising_methods:  # the same error object may be raised again
+                        e.raising_methods.append(name)
                     if e.silent:
                         self.log.debug('%s', e.format(False))
                     else:
